@@ -5,6 +5,7 @@ package kit06
 
 import (
 	"fmt"
+	"os"
 	"sort"
 	"strconv"
 	"strings"
@@ -122,7 +123,17 @@ func subsets(items []string) [][]string {
 	return out
 }
 
-// Keys is the key domain: all strings up to length 3 over {a,b,c} and the special ones.
+func thorough() bool { return os.Getenv("VERIF_TIER") == "thorough" }
+
+// KeyDepth: strings over {a,b,c} up to this length form the key domain (3 quick, 4 thorough).
+func KeyDepth() int {
+	if thorough() {
+		return 4
+	}
+	return 3
+}
+
+// Keys is the key domain: all strings up to length KeyDepth() over {a,b,c} and the special ones.
 func Keys() []string {
 	out := []string{""}
 	var rec func(p string)
@@ -130,7 +141,7 @@ func Keys() []string {
 		if p != "" {
 			out = append(out, p)
 		}
-		if len(p) == 3 {
+		if len(p) == KeyDepth() {
 			return
 		}
 		for _, c := range "abc" {
@@ -148,6 +159,9 @@ var DBs = []int{0, 1, 2, 10, 11}
 // lists crossed with db lists.
 func Configs(path string, level int) []Config {
 	prefixes := []string{"a", "ab", "b"}
+	if thorough() {
+		prefixes = []string{"a", "ab", "b", "abc", "c"}
+	}
 	dbl := []string{"0", "1", "10"}
 	keyCfgs := []Config{{}}
 	for _, s := range subsets(prefixes) {
